@@ -39,9 +39,92 @@ type C11Case struct {
 	PoolMax int64     `json:"pool_max,omitempty"`
 	EM      int       `json:"em,omitempty"`
 	Calls   []C11Call `json:"calls"`
+	// Pure: the rules call no injected function at all (kinds pbare / pval / pnone / pif /
+	// pempty); every call runs the whole set, so the expected map is known without a trace
+	Pure bool `json:"pure,omitempty"`
 }
 
 type c11Flags struct{ On bool }
+
+func c11PureText(r C11Rule) string {
+	body := ""
+	switch r.Kind {
+	case "pbare":
+		body = "  return\n"
+	case "pval":
+		body = "  return " + r.Lit + "\n"
+	case "pnone":
+		body = "  zz = 1\n"
+	case "pif":
+		body = "  if 1 == 2 {\n    return 1\n  }\n"
+	case "pifret":
+		body = "  if 1 == 1 {\n    return\n  }\n"
+	}
+	return fmt.Sprintf("rule %q %q salience %d\nbegin\n%send\n", r.Name, "d", r.Sal, body)
+}
+
+// checkC11Pure: rule sets whose bodies call nothing; 2-4 calls that run the whole set on one
+// engine or pool; after each call the map is exactly {pbare: nil, pifret: nil, pval: literal}.
+func checkC11Pure(c *C11Case, x *Ctx) {
+	var text strings.Builder
+	want := map[string]string{}
+	var names []string
+	for _, r := range c.Rules {
+		text.WriteString(c11PureText(r))
+		names = append(names, r.Name)
+		switch r.Kind {
+		case "pbare", "pifret":
+			want[r.Name] = "<nil>"
+		case "pval":
+			want[r.Name] = litValue(r.Lit)
+		}
+	}
+	x.Class("pure-rules-without-any-call")
+	x.NonTrivial()
+	var run func(call gx.Call) gx.Result
+	if c.Pool {
+		p, err := engine.NewGenginePool(c.PoolMin, c.PoolMax, c.EM, text.String(), map[string]interface{}{})
+		if err != nil {
+			x.Violation("setup", "NewGenginePool: %v\n%s", err, text.String())
+			return
+		}
+		run = func(call gx.Call) gx.Result { return gx.OnPool(p, call, map[string]interface{}{}, &engine.Stag{}) }
+	} else {
+		rb, err := buildDSL(text.String(), map[string]interface{}{})
+		if err != nil {
+			x.Violation("compile", "generated text was rejected: %v\n%s", err, text.String())
+			return
+		}
+		g := engine.NewGengine()
+		run = func(call gx.Call) gx.Result { return gx.OnEngine(g, rb, call, &engine.Stag{}) }
+	}
+	for ci, cc := range c.Calls {
+		res := run(cc.Call)
+		if res.Panic != "" || res.Err != nil {
+			x.Violation("pure-call-failed", "call %d %s on a set of rules that call nothing: err=%v panic=%q\n%s", ci, cc.Call, res.Err, truncate(res.Panic, 200), text.String())
+			return
+		}
+		got := map[string]string{}
+		for k, v := range res.Map {
+			got[k] = fmt.Sprint(v)
+		}
+		for k, v := range got {
+			if w, ok := want[k]; !ok {
+				x.Violation("extra-entry/pure", "call %d %s: result map has entry %q=%s, but that rule reaches no return\n%s", ci, cc.Call, k, v, text.String())
+				return
+			} else if w != v {
+				x.Violation("wrong-value/pure", "call %d %s: result map entry %q=%s, want %s\n%s", ci, cc.Call, k, v, w, text.String())
+				return
+			}
+		}
+		for k, w := range want {
+			if _, ok := got[k]; !ok {
+				x.Violation("missing-entry/pure", "call %d %s: rule %q reaches its return (value %s) but has no entry in the result map %v\n%s", ci, cc.Call, k, w, sortedMap(res.Map), text.String())
+				return
+			}
+		}
+	}
+}
 
 func (r C11Rule) text() string {
 	var b strings.Builder
@@ -112,10 +195,33 @@ func litValue(l string) string {
 func init() {
 	register(&Prop{
 		ID:   "C11",
-		Rule: "rule sets of 2-8 rules (sometimes 20-40 for the concurrent models), each rule one of {returns a literal of any class, returns an all-zero struct value, bare return, returns from inside nested if/for and from inside a forRange body, no return, fails before its return, fails in its return expression, returns a value read from an unexported field (which fails when it is handed out), returns iff an injected flag is set}; sequences of 2-5 calls on the same engine or pool with changing methods (all 21/24 execute methods, selected lists, N-M splits, DAG layerings incl. empty layers and the empty DAG) and changing flag; oracle after every call: the result map equals exactly {rule -> value | the rule started in this call (by trace) and reaches a return under this call's flag}, nil for a bare return, nothing from earlier calls. Non-trivial: a sequence in which a rule that returned in one call must be absent in a later call, or a failing rule runs, or >= 8 rules publish results concurrently; distinct by case hash",
+		Rule: "rule sets of 2-8 rules (sometimes 20-40 for the concurrent models), each rule one of {returns a literal of any class, returns an all-zero struct value, bare return, returns from inside nested if/for and from inside a forRange body, no return, fails before its return, fails in its return expression, returns a value read from an unexported field (which fails when it is handed out), returns iff an injected flag is set}; sequences of 2-5 calls on the same engine or pool with changing methods (all 21/24 execute methods, selected lists, N-M splits, DAG layerings incl. empty layers and the empty DAG) and changing flag; 5% of the cases are sets of 2-6 rules whose bodies call nothing (only `return`, only `return <literal>`, only an assignment, only an if, an if around a bare return, an empty body), run as a whole 2-4 times through any method: the map is exactly the bare returns (nil) and the literals; oracle after every call: the result map equals exactly {rule -> value | the rule started in this call (by trace) and reaches a return under this call's flag}, nil for a bare return, nothing from earlier calls. Non-trivial: a sequence in which a rule that returned in one call must be absent in a later call, or a failing rule runs, or >= 8 rules publish results concurrently; distinct by case hash",
 		New:  func() interface{} { return &C11Case{} },
 		Gen: func(t *rapid.T) interface{} {
 			c := &C11Case{}
+			if pct(t, "pure", 5) {
+				c.Pure = true
+				pk := []string{"pbare", "pbare", "pval", "pnone", "pif", "pifret", "pempty"}
+				n := uni(t, "pure_n", 2, 6)
+				for i := 0; i < n; i++ {
+					c.Rules = append(c.Rules, C11Rule{Name: fmt.Sprintf("r%d", i), Sal: int64(uni(t, fmt.Sprintf("psal%d", i), -2, 4)), Kind: pk[uni(t, fmt.Sprintf("pkind%d", i), 0, len(pk)-1)], Lit: c11Lits[uni(t, fmt.Sprintf("plit%d", i), 0, len(c11Lits)-1)]})
+				}
+				c.Pool = rapid.Bool().Draw(t, "pure_pool")
+				if c.Pool {
+					s := [][2]int64{{1, 2}, {1, 3}, {2, 3}}[uni(t, "pure_pool_size", 0, 2)]
+					c.PoolMin, c.PoolMax = s[0], s[1]
+					c.EM = uni(t, "pure_em", 1, 4)
+				}
+				ms := gx.MethodNames(c.Pool)
+				var names []string
+				for _, r := range c.Rules {
+					names = append(names, r.Name)
+				}
+				for k := uni(t, "pure_ncalls", 2, 4); k > 0; k-- {
+					c.Calls = append(c.Calls, C11Call{Call: fullCall(ms[uni(t, fmt.Sprintf("pure_m%d", k), 0, len(ms)-1)], names, uni(t, fmt.Sprintf("pure_salt%d", k), 0, 7))})
+				}
+				return c
+			}
 			n := uni(t, "nrules", 2, 8)
 			big := pct(t, "many_rules", 8)
 			if big {
@@ -212,6 +318,10 @@ func c11GenCall(t *rapid.T, pfx, method string, rules []models.Rule) gx.Call {
 
 func checkC11(ci interface{}, x *Ctx) {
 	c := ci.(*C11Case)
+	if c.Pure {
+		checkC11Pure(c, x)
+		return
+	}
 	env := newSchedEnv()
 	apis := env.apis()
 	apis["FX"] = func(n string) { env.log.Add("F", n, 0) }
